@@ -47,6 +47,22 @@ ROUTING_FAULTS = Profile(
     max_conns=8,
     p_logger=4,
 )
+# the same routing oracle next to identity events and (almost) without logger modules: connects that ask for an id or name
+# already held (refused, or admitted as a second instance when both allow it), out-of-range ids, second instances leaving -
+# none of which may change who receives an addressed or a broadcast message among the modules that stay
+ROUTING_IDENTITY = Profile(
+    name="routing-identity",
+    oracles={"routing", "framing"},
+    weights={STEP: 10, PUB: 12, SUB: 6, CONNECT: 9, OPEN: 4, DISCONNECT: 3, CLOSE: 3, READY: 1, SETNAME: 1},
+    types=[1234, 5000, 33, 8, 0, 9999],
+    sizes=[0, 8, 64, 1, 7],
+    clash_ids=True,
+    clash_extra=(100, 200, -1),
+    static_ids=[10, 11, 50],
+    dts=[0.0],
+    max_conns=8,
+    p_logger=40,
+)
 FAULT_CFGS = [{"timecode": False, "timing": True, "log": "silent"}, {"timecode": True, "timing": False, "log": "silent"}]
 
 CFGS = [
@@ -85,6 +101,17 @@ def shard(seed: int, n_examples: int, max_len: int) -> Result:
 
     hyp_run(body, st.tuples(st.integers(0, len(CFGS) - 1), mgen.raw_ops(PROFILE, max_len)), seed, n_examples * 3 // 4, res)
     hyp_run(body_faults, st.tuples(st.integers(0, 1), mgen.raw_ops(ROUTING_FAULTS, max_len, min_clients=3)), seed + 7, n_examples // 4, res)
+
+    def body_identity(v):
+        ci, raws = v
+        cfg = FAULT_CFGS[ci % 2]
+        w = mgen.run_history(cfg, ROUTING_IDENTITY, raws, "C01")
+        harvest(w, cfg)
+        res.count("histories-identity-profile")
+        if w.stats.get("connect-refused"):
+            res.count("histories-identity-profile-with-a-refused-connect")
+
+    hyp_run(body_identity, st.tuples(st.integers(0, 1), mgen.raw_ops(ROUTING_IDENTITY, max_len, min_clients=3)), seed + 13, n_examples // 4, res)
     return res
 
 
